@@ -205,7 +205,13 @@ def check_reader(rep, prog, fn):
         nondom = [(d, rhs) for (d, rhs) in inloop if not cfg.dominates(d, sc) and cfg.reaches(d, sc)
                   and not (d.line > sc.line)]
         wname = prog.vars[wvar]['name']
-        if not dom:
+        uninit = [d for (d, rhs) in inloop if d.k == 'VarDecl' and rhs is None]
+        if uninit and not [x for x in dom if x[1] is not None]:
+            rep.violation('R10b', sc, fn, whatb,
+                          '%s is declared without an initialiser (line %d): on a line without weight sscanf leaves it untouched and an '
+                          'indeterminate double is read and stored as the edge weight' % (wname, uninit[0].line),
+                          key='R10b|%s|uninitialised' % fn.g)
+        elif not dom:
             rep.violation('R10b', sc, fn, whatb,
                           '%s is not re-initialised inside the line loop before the sscanf: a line without weight keeps the '
                           'previous line\'s weight' % wname, key='R10b|%s|not-reset' % fn.g)
@@ -353,6 +359,32 @@ def check_reader(rep, prog, fn):
         opaque_nodes = [fn.nodes[a[1]] for a in opaque]
         bad_opaque = [o for o in opaque_nodes if not is_lookup_guard(o) and not (
             line_loop.cond is not None and (line_loop.cond.is_ancestor_of(o) or line_loop.cond.strip() is o))]
+        # tests of the sscanf conversion count: judged over the counts a valid edge line can produce
+        nconv = len(binds)
+        nmand = nconv - 1          # everything but the trailing optional weight
+        still_bad = []
+        for o in bad_opaque:
+            tv = count_guard_values(fn, o, sc, range(nmand, nconv + 1))
+            if tv is None:
+                still_bad.append(o)
+                continue
+            if len(set(tv)) != 1:
+                problems.append('`%s` distinguishes edge lines with a weight from edge lines without' % o.text(50))
+                continue
+            T = tv[0]
+            atom = ('opaque', o.i)
+            others = [a for a in ex.f_atoms(g) if a != atom]
+            import itertools
+            reach_valid = False
+            for vals in itertools.product((False, True), repeat=len(others)):
+                envv = dict(zip(others, vals))
+                envv[atom] = T
+                if ex.f_eval(g, envv):
+                    reach_valid = True
+                    break
+            if not reach_valid:
+                problems.append('`%s` keeps every well-formed edge line (%d or %d conversions) away from add_edge' % (o.text(50), nmand, nconv))
+        bad_opaque = still_bad
         if bad_opaque:
             problems.append('add_edge additionally depends on `%s`' % bad_opaque[0].text(50))
         if not cfg.dominates(sc, ae):
@@ -398,6 +430,38 @@ def check_reader(rep, prog, fn):
             rep.violation('R10d', ae, fn, whate, '; '.join(problems), key='R10d|%s|edges' % fn.g)
         else:
             rep.ok('R10d', ae, fn, whate, 'add_edge(vertex_map[rs], vertex_map[rt]); weight[e] = rw under buffer[0] in {a,e}')
+
+
+def count_guard_values(fn, cond, scan, counts):
+    """truth values of `cond` for each conversion count in `counts` if cond compares the result of the sscanf call `scan` (or a
+    variable holding it) with a constant; None otherwise"""
+    s = cond.strip_all()
+    if s.k == 'UnaryOperator' and s.op == '!':
+        r = count_guard_values(fn, s.c[0], scan, counts)
+        return None if r is None else [not x for x in r]
+    if s.k != 'BinaryOperator' or s.op not in ('<', '<=', '>', '>=', '==', '!='):
+        return None
+
+    def is_count(e):
+        e = e.strip_all()
+        if e is scan or e.i == scan.i:
+            return True
+        v = ex.var_of(e)
+        if v is not None:
+            d = ex.unique_def(fn, v)
+            return d is not None and d.strip_all().i == scan.i
+        return False
+    l, r = s.c[0], s.c[1]
+    op = s.op
+    if is_count(r):
+        l, r = r, l
+        op = {'<': '>', '>': '<', '<=': '>=', '>=': '<='}.get(op, op)
+    if not is_count(l) or r.strip_all().cv is None:
+        return None
+    c = r.strip_all().cv
+    import operator
+    f = {'<': operator.lt, '<=': operator.le, '>': operator.gt, '>=': operator.ge, '==': operator.eq, '!=': operator.ne}[op]
+    return [f(k, c) for k in counts]
 
 
 def is_lookup_guard(n):
